@@ -390,7 +390,6 @@ func TestC06Exhaustive(t *testing.T) {
 	col.Exhaustive = true
 }
 
-
 // The filesystem as a fault source: the target is a tmpfs with room for exactly k entries, for every k from 0 to the
 // number of node paths. The creation that does not fit fails with ENOSPC and must be reported.
 func TestC06FsFault(t *testing.T) {
